@@ -101,12 +101,11 @@ func NewMultiWriteSyncer(ws ...WriteSyncer) WriteSyncer {
 func (ws multiWriteSyncer) Write(p []byte) (int, error) {
 	var writeErr error
 	nWritten := 0
-	for _, w := range ws {
+	for i, w := range ws {
 		n, err := w.Write(p)
 		writeErr = multierr.Append(writeErr, err)
-		if nWritten == 0 && n != 0 {
-			nWritten = n
-		} else if n < nWritten {
+		// Report the smallest count; a sink that wrote nothing counts too.
+		if i == 0 || n < nWritten {
 			nWritten = n
 		}
 	}
